@@ -142,6 +142,17 @@ def _src(node, text):
     return ' '.join(ast.get_source_segment(text, node).split())
 
 
+def _callfree_bool(node):
+    """a boolean combination / comparison of pure operands: what an `if` would test, named instead"""
+    if isinstance(node, ast.BoolOp):
+        return all(_callfree_bool(v) or _pure(v) for v in node.values)
+    if isinstance(node, ast.UnaryOp) and isinstance(node.op, ast.Not):
+        return _callfree_bool(node.operand) or _pure(node.operand)
+    if isinstance(node, ast.Compare):
+        return _pure(node.left) and all(_pure(c) for c in node.comparators)
+    return False
+
+
 def _pure(node):
     """expression that cannot raise in any way that matters: names, constants, attribute chains, tuples/lists of them"""
     if isinstance(node, (ast.Constant, ast.Name)):
@@ -162,6 +173,27 @@ class Translator:
         self.in_init = in_init      # AppResponse.close as called from __init__: self.iter_response may be unset
         self.unknown = []
         self.roles = {}
+        self.cls = None             # the enclosing class: private helper methods are translated in place
+        self.inlining = []
+
+    def helper_body(self, node):
+        """`self._helper(plain args)` as a statement, where _helper is a method of the same class that has no return
+        statement and is not a function of the vocabulary: its statements, to be translated where the call stands
+        (locals are wildcards in the vocabulary, so the parameters need no renaming)"""
+        if not (isinstance(node, ast.Expr) and isinstance(node.value, ast.Call)) or self.cls is None:
+            return None
+        f = node.value.func
+        if not (isinstance(f, ast.Attribute) and isinstance(f.value, ast.Name) and f.value.id == 'self'
+                and f.attr.startswith('_') and not f.attr.startswith('__')):
+            return None
+        if node.value.keywords or not all(_pure(a) for a in node.value.args):
+            return None
+        m = next((n for n in self.cls.body if isinstance(n, ast.FunctionDef) and n.name == f.attr), None)
+        if m is None or m.decorator_list or f.attr in self.inlining:
+            return None
+        if any(isinstance(n, (ast.Return, ast.Yield, ast.YieldFrom)) for n in ast.walk(m)):
+            return None
+        return m
 
     def simple(self, node):
         s = _src(node, self.text)
@@ -178,6 +210,16 @@ class Translator:
                 return out(m) if callable(out) else out
         if isinstance(node, (ast.Assign, ast.AnnAssign, ast.AugAssign)) and node.value is not None and _pure(node.value):
             return None
+        if isinstance(node, ast.Assign) and len(node.targets) == 1 and isinstance(node.targets[0], ast.Name) \
+                and _callfree_bool(node.value):
+            return None             # a condition given a name: evaluated like the `if` test it will feed
+        m = self.helper_body(node)
+        if m is not None:
+            self.inlining.append(m.name)
+            try:
+                return self.block(m.body)
+            finally:
+                self.inlining.pop()
         self.unknown.append(s)
         return 'Act Other'
 
@@ -335,6 +377,8 @@ def translate(repo, relpath, qualname, in_init=False):
     tree = ast.parse(text)
     fn = find_function(tree, qualname)
     tr = Translator(text, trapper=qualname.startswith('_TrappedResponse'), in_init=in_init)
+    if '.' in qualname:
+        tr.cls = find_function(tree, qualname.rsplit('.', 1)[0])
     tr.note_roles(fn)
     return tr.block(fn.body, top=True), tr.unknown
 
